@@ -35,7 +35,9 @@ def run(tier, seed):
     import concengine as ce
     from checks.c07 import collect
     cst = {"traces": 0, "states": 0, "transitions": 0, "schedules": 0, "stalls": 0, "events": 0}
-    fam = ce.mem_family()
+    # and the calls that remove a generation outside the caller's own write path (sweeper, lazy expiry) against
+    # every writer variant: what is released must be what was removed
+    fam = ce.mem_family() + [x for x in ce.pair_family() if "sweep" in x[0] or x[0].startswith("expired|")]
     res = ce.run_dfs(fxv, rd, fam, "mem", maxsched=400 if tier == "quick" else 3000, preempt=2 if tier == "quick" else 3)
     collect(PROP, res, rd, ["MemBound"], viol, cst)
     free = [("free_lim_%d" % i, ["--seed", str(rng.randrange(1 << 30)), "--threads", "4", "--ops", "25", "--keys", "3",
